@@ -375,3 +375,39 @@ func ZZ_C04_LateUpdate() {
 	zzAccounted(s, "late-update")
 	zzViews(s, "late-update")
 }
+
+// ZZ_C04_StoreUpdate: a TTL change through the Store (none -> TTL, TTL -> shorter, TTL -> longer, TTL -> none kept):
+// after the update is applied an entry with a deadline is on the wheel, and it is reclaimed by the first tick that
+// is one finest tick past its current deadline.
+func ZZ_C04_StoreUpdate() {
+	var notes []zzNote
+	s := zzThreadedStore(10, &notes)
+	origin := vfClockNow()
+	ttls := []int64{0, 1 << 28, 1 << 29}
+	a := ttls[vfChoose("ttl1", 3)]
+	b := ttls[vfChoose("ttl2", 3)]
+	s.Set(1, 100, 1, time.Duration(a))
+	if vfChoose("drainBetween", 2) == 1 {
+		s.Wait()
+	}
+	s.Set(1, 101, 1, time.Duration(b))
+	s.Wait()
+	zzOnWheel(s, "after-update")
+	E := b
+	if b == 0 {
+		E = a // an update without TTL keeps the deadline
+	}
+	vfNote("deadline", E)
+	vfClockSet(origin + 1<<31)
+	vfFireTickers()
+	vfQuiesce()
+	vfReach("ticked")
+	n, l := zzCount(notes, 1)
+	if E != 0 {
+		vfAssert("updated-deadline-reclaimed", n == 1 && l.reason == EXPIRED && l.val == 101)
+		vfAssert("updated-deadline-gone", s.Len() == 0)
+	} else {
+		vfAssert("no-deadline-not-reclaimed", n == 0 && s.Len() == 1)
+	}
+	zzAccounted(s, "after-tick")
+}
